@@ -10,19 +10,19 @@ CHECKS = {
          "Every argument observed inside every generated target/converter body (positional, struct, pointer-struct, built, generated converters) is checked for real provenance, causal order, assignability and label compatibility, over tens of thousands of generated scenarios repeated to sample map-order tie-breaks. Exploration: held on the executions observed, nothing more.",
          "Trusts the harness's provenance table and MAY table (30 lines, written from the property text); universe of 6 concrete struct types + 3 interface types, plus 9 exotic types (unnamed slice/pointer/map/func/array, defined twins assignable to them, channels) that replace three of the struct types in one case in eight; <= 9 converters. One recorded, unrepaired defect (KNOWN_FINDINGS.txt open: D38, subtype mismatch handed over through a twin interface type) is decided by a fixed case under its own key and printed as KNOWN-FINDING; every other binding violation keeps its key.", "5/C01"),
  "C02": ("derivability fix-point reference model (MAY table) vs. observed outcome and call log",
-         "For every scenario with a target parameter outside the MAY least fix-point the monitor requires a non-nil error, no target execution, no fabricated argument, and the dedicated error type when every converter is MUST-satisfiable; hostile shapes (mutual cycles, unreachable prerequisites) are generated on purpose; crashes are caught by the process supervisor.",
+         "For every scenario with a target parameter outside the MAY least fix-point the monitor requires a non-nil error, no target execution, no fabricated argument, and the dedicated error type when every converter is MUST-satisfiable; hostile shapes (mutual cycles, unreachable prerequisites) are generated on purpose; crashes are caught by the process supervisor. Histories: the refused call may follow a satisfied call on the same objects, directly, through a function redefined from the target, or through a caller's wrapper built over the target's own input/output sets.",
          "Underivable is judged by the harness's own fix-point over labels; sampled scenarios only.", "5/C02"),
  "C03": ("provenance monitor over a constructive exact-match generator with adversarial distractors",
-         "Targets with an exactly matching supplied value per parameter are surrounded by near-miss inputs and distractor converters (same-named chains, providers, bidirectional pairs, failing and run-once ones); the monitor requires success, zero converter executions and the exact ids in the target's arguments, repeated to sample tie-breaks.",
+         "Targets with an exactly matching supplied value per parameter are surrounded by near-miss inputs and distractor converters (same-named chains, providers, bidirectional pairs, failing and run-once ones); the monitor requires success, zero converter executions and the exact ids in the target's arguments, repeated to sample tie-breaks; one case in five follows a call with other values through a wrapper over the target's own sets (the exact call must bind its own inputs).",
          "Interface-typed parameters excluded (no exact input exists); sampled shapes only.", "5/C03"),
- "C04": ("ordered boundary event log + error identity (==) oracle",
+ "C04": ("ordered boundary event log + error identity oracle (== on comparable error values, backing array for slice-typed ones)",
          "Constructive chains/DAGs with independently failing converters at depth 1-6 (all result forms, built, run-once) and failing targets: Err() must be the very error value of the first failing body, that execution must be the last of the call, the target must not run; a second call re-checks cached run-once failures.",
-         "Identity is pointer identity of the generated error values.", "5/C04"),
+         "Identity is pointer identity of the generated error values (sentinel structs, integer codes, typed nil pointers, error lists and, one case in seven, values of an uncomparable slice type included).", "5/C04"),
  "C05": ("scope classifier + MUST-derivability fix-point reference model; outcome class compared across repetitions",
-         "In-scope scenarios (single-input converter sets with arbitrary cycles; acyclic multi-input sets with every converter satisfiable) with every parameter derivable must succeed (or return a failing converter's error) on each of R repetitions with a stable class; repetitions sample Go's randomized map order and the evidence reports how many distinct execution traces were seen.",
+         "In-scope scenarios (single-input converter sets with arbitrary cycles; acyclic multi-input sets with every converter satisfiable) with every parameter derivable must succeed (or return a failing converter's error) on each of R repetitions with a stable class; repetitions sample Go's randomized map order and the evidence reports how many distinct execution traces were seen. A history family re-labels requirements through the pointers Input()/Output() hand out between calls; each call supplies inputs matching the current labels and must succeed.",
          "Scope and derivability are judged by the harness's own tables; map order is sampled, not enumerated.", "5/C05"),
  "C06": ("process-supervised execution (crash journal), recovered-panic monitor, recursion/step bound counters at the verif hook",
-         "Every well-formed generated scenario is pushed through Call, Convert, Redefine and a call of the redefined function in child processes that survive fatal errors; hostile families target mutual recursion and repeated positional types; malformed options must be ignored or reported. Non-termination is restated as bounded progress observed at the reachTarget hook.",
+         "Every well-formed generated scenario is pushed through Call, Convert, Redefine and a call of the redefined function in child processes that survive fatal errors; hostile families target mutual recursion and repeated positional types; malformed options must be ignored or reported. Non-termination is restated as bounded progress observed at the reachTarget hook. A history family drives calls and Redefines over a dependency cycle of multi-input converters (any subset run-once, memoized by earlier calls that break the cycle) against a closure oracle.",
          "Bounded-progress restatement of termination (depth <= 8(F+3), <= 10^6 resolver steps per API call, 5*10^6 loop steps per case incl. signature analysis); wall-clock watchdog firing is inconclusive. One recorded, unrepaired defect (KNOWN_FINDINGS.txt open: trace-level logger + a value that contains itself -> fatal stack overflow in fmt) is decided by a child-process probe under its own key and printed as KNOWN-FINDING; every other crash key is a violation.", "5/C06"),
  "C07": ("provenance monitor over a dedicated name-affinity generator",
          "Competing same-typed named inputs and competing converters (explicit name vs type-only, same output label) in all forms and orders; the monitor checks which input was converted and which converter ran, over repetitions sampling map order.",
@@ -34,10 +34,10 @@ CHECKS = {
          "G-redefine scenarios (single-input converters, no subtypes, one type per name, constructive chains of 1-5 converters with optional cycles, arbitrary type-subset filters built from the library's combinators): the monitor checks the redefined function's declared inputs against the filter and the supplied values, calls it with a fresh value per input and requires the original target to run exactly once with the results passed through unchanged.",
          "Positional target results only (ids compared one by one); values for interface-typed named inputs are supplied type-only, the only form the matching rules accept.", "5/C08"),
  "C09": ("execution counters during planning + twin-world differential over operation histories; concurrent rounds under the Go race detector",
-         "Histories interleaving Redefine with Call/Convert/redefined calls on shared function objects (run-once ones included) are compared with a twin world that performs the same history without the Redefines; no generated body may run between entry and return of Redefine; a leaked zero-producing stand-in would surface as provenance id 0 in the C01 monitor. One case in eight runs Redefine and Call concurrently under -race.",
+         "Histories interleaving Redefine with Call/Convert/redefined calls on shared function objects (run-once ones included) are compared with a twin world that performs the same history without the Redefines; no generated body may run between entry and return of Redefine; a leaked zero-producing stand-in would surface as provenance id 0 in the C01 monitor. One case in eight runs Redefine and Call concurrently under -race; one in forty plans through a converter whose (memoized) struct-form result is a nil pointer / zero struct and requires every later real use to look as in the twin world.",
          "Twin comparison only on outcome-stable scenario classes; races judged on observed interleavings.", "5/C09"),
  "C10": ("differential monitor: Convert vs. Call of a real identity function in a twin world, plus provenance checks of the returned value",
-         "Convert's return pair is checked on every case (nil-with-error, assignability, provenance under the C01 rule for a type-only parameter, C04 on the log) and compared with calling func(T) T in a twin world on the outcome-stable cases (underivable, or C05 scope without failures).",
+         "Convert's return pair is checked on every case (nil-with-error, assignability, provenance under the C01 rule for a type-only parameter, C04 on the log) and compared with calling func(T) T in a twin world on the outcome-stable cases (underivable, or C05 scope without failures). A history family alternates Converts between two different types that print alike, each against an identity function of that type.",
          "Outcome equality is demanded only where the outcome class is a singleton.", "5/C10"),
  "C11": ("execution counters + porcupine linearizability check of recorded exec/use histories against a write-once-register model + Go race detector, with injected yields/sleeps at hook points",
          "Sequential histories over varying targets check at-most-once execution and that every later use observes execution #0 (values or the identical error). Concurrent first-use rounds (GOMAXPROCS 1-16, perturbation at the memo check/call/store hooks and inside the body) record exec and use operations with real-time intervals; porcupine decides each history; the race detector watches the memo.",
